@@ -188,7 +188,8 @@ fn valid_grid(tier: &str) -> Vec<ValidCase> {
     let ptypes: &[u8] = &[0x04, 0x06, 0x0E, 0x0B, 0x0C];
     let lbas: &[u32] = if quick { &[1, 2048, 0x00F0_0001] } else { &[1, 63, 2048, 0x00F0_0001] };
     for fat32 in [false, true] {
-        let counts: &[u32] = if fat32 { &[65525, 65526, 2_000_000] } else { &[4085, 4086, 65524] };
+        // (4094 and 65534 clusters: the FAT has exactly as many entries as the volume needs, no slack)
+        let counts: &[u32] = if fat32 { &[65525, 65526, 65534, 2_000_000] } else { &[4085, 4086, 4094, 65524] };
         for &clusters in counts {
             if quick && clusters == 2_000_000 {
                 // one representative only
